@@ -94,6 +94,10 @@ type Session struct {
 	msgMeta     *module.MsgMetadata
 	delivery    module.Delivery
 	deliveryErr error
+	// Recipients accepted for the current message: normalized address (what
+	// the pipeline sees) -> RCPT TO arguments exactly as sent by the client,
+	// in order and with repetitions (what go-smtp keys LMTP statuses by).
+	rcptArgs map[string][]string
 
 	log log.Logger
 }
@@ -154,6 +158,7 @@ func (s *Session) cleanSession() {
 	s.msgMeta = nil
 	s.delivery = nil
 	s.deliveryErr = nil
+	s.rcptArgs = nil
 	s.msgCtx = nil
 	s.msgTask.End()
 }
@@ -410,7 +415,15 @@ func (s *Session) rcpt(ctx context.Context, to string, opts *smtp.RcptOptions) e
 		}
 	}
 
-	return s.delivery.AddRcpt(ctx, cleanTo, *opts)
+	if err := s.delivery.AddRcpt(ctx, cleanTo, *opts); err != nil {
+		return err
+	}
+
+	if s.rcptArgs == nil {
+		s.rcptArgs = make(map[string][]string)
+	}
+	s.rcptArgs[cleanTo] = append(s.rcptArgs[cleanTo], to)
+	return nil
 }
 
 func (s *Session) Logout() error {
@@ -520,13 +533,45 @@ func (s *Session) Data(r io.Reader) error {
 	return nil
 }
 
+// statusWrapper translates the statuses reported by the pipeline for
+// normalized recipient addresses into statuses for RCPT TO arguments as they
+// were sent by the client. The latter is what go-smtp expects and it panics
+// if it gets an unknown address or more statuses than RCPT commands.
 type statusWrapper struct {
 	sc smtp.StatusCollector
 	s  *Session
+
+	lock sync.Mutex
+	// Amount of RCPT commands for the normalized address that got
+	// a status already.
+	reported map[string]int
 }
 
-func (sw statusWrapper) SetStatus(rcpt string, err error) {
-	sw.sc.SetStatus(rcpt, sw.s.endp.wrapErr(sw.s.msgMeta.ID, !sw.s.opts.UTF8, "DATA", err))
+func (sw *statusWrapper) SetStatus(rcpt string, err error) {
+	if err == nil {
+		// Success is what go-smtp reports for recipients without a status
+		// once LMTPData returns. Do not let it take the place of
+		// a failure reported later by another target handling the same recipient.
+		return
+	}
+
+	sw.lock.Lock()
+	defer sw.lock.Unlock()
+
+	args := sw.s.rcptArgs[rcpt]
+	n := sw.reported[rcpt]
+	if n >= len(args) {
+		// Several targets failed for the same recipient (only the first
+		// failure can be reported) or the address is not known at all.
+		sw.s.log.Error("LMTP status not reported to the client", err, "rcpt", rcpt, "msg_id", sw.s.msgMeta.ID)
+		return
+	}
+	if sw.reported == nil {
+		sw.reported = make(map[string]int)
+	}
+	sw.reported[rcpt] = n + 1
+
+	sw.sc.SetStatus(args[n], sw.s.endp.wrapErr(sw.s.msgMeta.ID, !sw.s.opts.UTF8, "DATA", err))
 }
 
 func (s *Session) LMTPData(r io.Reader, sc smtp.StatusCollector) error {
@@ -570,7 +615,7 @@ func (s *Session) LMTPData(r io.Reader, sc smtp.StatusCollector) error {
 		return wrapErr(err)
 	}
 
-	s.delivery.(module.PartialDelivery).BodyNonAtomic(bodyCtx, statusWrapper{sc, s}, header, buf)
+	s.delivery.(module.PartialDelivery).BodyNonAtomic(bodyCtx, &statusWrapper{sc: sc, s: s}, header, buf)
 
 	// We can't really tell whether it is failed completely or succeeded
 	// so always commit. Should be harmless, anyway.
